@@ -582,28 +582,34 @@ func c09Class(a *syntax.Ast) string {
 // computes ceil(float64(v)*100)/100: when the float32 nearest to k/100 lies above k/100 (0.31f =
 // 0.310000002...), reading the printed value rounds up once more (0.31 -> 0.32).
 
-func c09RoundUpTo(value float32, granularity float64) float32 { // = roundUpTo of parsenum.go
-	// (since the repair of F30: a value that already is, as closely as a float32 can hold it, a
-	// multiple of 1/granularity stays as it is)
-	if value == 0 {
-		return 0
+// c09RealThreads is the canonicaliser `h` of the Lean model (Martian.FormatDeclText.HOK: the text
+// the formatter prints for the value the parser stores for a `threads` literal), obtained from the
+// REAL code: the literal is parsed inside a minimal stage and the stored float32 printed with %g.
+// The harness has no copy of parsenum.go roundUpTo any more (second audit, C09 M2): the properties
+// the theorems assume of h (it yields a NUM_FLOAT token or a canonical integer, and is idempotent)
+// are checked on the real code by the stage-text streams and by the exhaustive hundredths monitor.
+var c09RealThreadsCache = map[string]string{}
+
+func c09RealThreads(raw string) string {
+	if v, ok := c09RealThreadsCache[raw]; ok {
+		return v
 	}
-	if nearest := float32(math.Round(float64(value)*granularity) / granularity); nearest == value {
-		return value
+	out := "?" + raw
+	src := "stage S(\n    src py \"x\",\n) using (\n    threads = " + raw + ",\n)\n"
+	if ast, err, pan := c09Parse([]byte(src), "threads.mro"); pan == "" && err == nil && ast != nil &&
+		len(ast.Stages) == 1 && ast.Stages[0].Resources != nil && ast.Stages[0].Resources.ThreadNode != nil {
+		out = fmt.Sprintf("%g", ast.Stages[0].Resources.Threads)
 	}
-	if value > 0 {
-		return float32(math.Ceil(float64(value)*granularity) / granularity)
-	} else if value < 0 {
-		return float32(math.Floor(float64(value)*granularity) / granularity)
-	}
-	return 0
+	c09RealThreadsCache[raw] = out
+	return out
 }
 
+// a `threads` value which is not a fixed point of print + read (F30, fixed by 9a743c1: kept as a
+// class so that a regression is named)
 func c09ThreadsUnstable(a *syntax.Ast) bool {
 	for _, st := range a.Stages {
 		if r := st.Resources; r != nil && r.ThreadNode != nil {
-			f, err := strconv.ParseFloat(fmt.Sprintf("%g", r.Threads), 32)
-			if err != nil || c09RoundUpTo(float32(f), 100) != r.Threads {
+			if t := fmt.Sprintf("%g", r.Threads); c09RealThreads(t) != t {
 				return true
 			}
 		}
